@@ -182,6 +182,12 @@ class Trace:
             self.last_ep = ep
         return i
 
+    def impl_only(self, line):
+        """an environment action on the implementation side only (the model has no counterpart and is not told)"""
+        i = self.pair.impl.ask(line)
+        self.ops.append((line, i, i))
+        return i
+
     def dump(self):
         line = "dump %d %d %d %s" % (self.round, self.bound, len(self.dump_addrs),
                                      " ".join(str(a) for a in self.dump_addrs))
@@ -332,7 +338,11 @@ class Life:
         if self.v == "guarV2" and r.chance(2, 3):
             self.set_schedule2()
         if self.v in NFT:
-            t.call(OWNER, "sftSetup")
+            # usually the SFT collection is set up before the sale; sometimes only just before the claims — until then
+            # nobody can enter the NFT draw ("SFT setup not complete")
+            self.sft_late = r.chance(1, 6)
+            if not self.sft_late:
+                t.call(OWNER, "sftSetup")
             if r.chance(1, 4):
                 self.fee = r.pick([2, 9])
                 t.call(OWNER, "setNftCost", [self.feetok, 0, self.fee])
@@ -546,6 +556,9 @@ class Life:
 
     # ---- claims ----------------------------------------------------------------
     def claim_phase(self):
+        if getattr(self, "sft_late", False):
+            self.t.call(OWNER, "sftSetup")
+            self.sft_late = False
         t, r = self.t, self.r
         if t.round < self.claim and r.chance(1, 2):
             t.call(r.pick(self.users), "claim", probe=True)
